@@ -15,6 +15,10 @@ LABEL_NAMES = ['loop', 'L1', 'done', 'string_tab', 'include_me', 'x', '_start', 
 CONST_NAMES = ['K', 'FOO', 'BAR', 'RCU_BASE', 'k2', 'ADDR', 'Stringy', 'align_', 'X', 'N0', '_k', 'SIZE', 'Mask',
                'SHIFT', 'BIT', 'OFFSET', 'neg1', 'Z', 'W', 'REG_A', 'REG_B', 'tmp_reg', 'PTR', 'Q', 'big', 'c0']
 assert all(ir.name_ok(n) for n in LABEL_NAMES + CONST_NAMES)
+# a label may also be spelled like a register (`s1:`, `ra:`): legal - a label is only ever looked up in label position, where the
+# assembler consults constants and labels, not registers - and accepted by the assembler; kept out of name_ok() because such
+# a name must never be used for a CONSTANT (that is refused) or rendered where a register is expected
+LABEL_NAMES += ['s1', 'ra', 'x5', 'a0', 'fp']
 assert not set(LABEL_NAMES) & set(CONST_NAMES)
 
 EDGE_REGS = [0, 1, 2, 5, 6, 7, 8, 9, 15, 16, 31]
